@@ -110,6 +110,13 @@ def main():
             changed = translate.run()
             if changed:
                 notes.append("Gen/Tables.v regenerated (content changed)")
+            import translate_tables
+            for sec, err in translate.FAILED.items():
+                if pid in translate_tables.SECTION_USERS.get(sec, []):
+                    # the constants of the last successful regeneration stay in the model; whether they still describe
+                    # the code is decided by the correspondence run below (model vs implementation on every case)
+                    notes.append("translator: section '%s' could not be regenerated (%s); its last regenerated values are "
+                                 "validated by the correspondence run only" % (sec, err))
         except Exception as e:  # a table that can no longer be located is a broken tie
             tie_ok = False
             notes.append("translator failed: %r" % (e,))
